@@ -131,7 +131,8 @@ def g_op(h, op):
         grp = "None" if op[5] == 0 else "(Some (%d, %d))" % (op[5], op[6])
         return "OIbtp (Build_ibtp %d %d %d 0 (%d)%%Z %s 0) %s" % (op[1], op[2], op[3], op[4], grp, pk)
     if k == 2:
-        return "OIbtp (Build_ibtp %d %d %d %d 0%%Z None 0) %s" % (op[1], op[2], op[3], op[4], pk)
+        grp = "None" if len(op) < 8 or op[6] == 0 else "(Some (%d, %d))" % (op[6], op[7])
+        return "OIbtp (Build_ibtp %d %d %d %d 0%%Z %s 0) %s" % (op[1], op[2], op[3], op[4], grp, pk)
     if k == 3:
         return "OTransfer"
     if k == 4:
@@ -178,7 +179,7 @@ def g_case(h, impl_blocks):
 
 
 FLAGS = ["d_timeout_keeps_failed", "d_interbxh_zero_record", "d_multitx_dst_first", "d_unordered",
-         "d_tl_empty_head", "d_delete_interchain", "d_late_child", "d_fail_ndst_lost", "d_interhub_timeout"]
+         "d_tl_empty_head", "d_delete_interchain", "d_late_child", "d_fail_ndst_lost", "d_interhub_timeout", "d_receipt_group_skip"]
 
 
 def g_cfg(flags):
@@ -480,7 +481,10 @@ def gen_timeout(rng, world=None, audit=None):
                 _, s, d, kind, H = e
                 lst = issued.get((s, d, H))
                 if lst:
-                    ops.append([2, s, d, lst[0], kind, 1])
+                    if rng.random() < 0.12:
+                        ops.append([2, s, d, lst[0], kind, 1, rng.randrange(1, 3), rng.randrange(1, 3)])   # receipt carrying a Group field
+                    else:
+                        ops.append([2, s, d, lst[0], kind, 1])
         if rng.random() < 0.1:
             ops.append([3])
         blocks.append(ops)
